@@ -16,24 +16,48 @@ OBLIGATIONS = [NS + t for t in [
     "slice_in_bounds", "gather_wf",
     "stack_block_get", "stackVec_get",
     "integralData_spec", "integral_eq_prefix_sums", "integral_rank1", "integral_rank2",
+    # non-owning tensors (Model/TensorView.lean): what a view aliases, assignments of views, writes through views
+    "view_get", "owner_view_get", "assign_full_view", "assign_wf",
+    "view_sub_in_bounds", "view_slice_in_bounds", "view_reshape_in_bounds",
+    "view_sub_elem", "view_slice_elem", "view_reshape_elem",
+    "assign_slice_elem", "assign_sub_elem", "assign_reshape_elem",
+    "write_through_view_frame", "index_outside_subview", "write_sub_get", "write_slice_get",
+    # gathers into a provided output
+    "gatherRows_spec", "gather_into_map_eq_gather", "gather_into_eq_gather", "gather_into_dims", "gather_into_get",
+    # integral with distinct input / output scalar types
+    "integralData_hom", "integralX_eq_prefix_sums", "wrap_exact", "integralWrapped_spec",
 ]]
 TRUSTED = [
     "Lean 4.33.0 kernel (core library only for this property; no Mathlib import)",
     "axioms: at most propext, Classical.choice, Quot.sound (audited per theorem on every run)",
-    "hand-written model NanoVerif/Model/Tensor.lean of dims.h/tensor.h/integral.h/algorithm.h/stack.h; tied to the code by "
-    "the correspondence run (harness/c16.cpp on the real headers vs the compiled Lean driver, exact comparison)",
+    "hand-written model NanoVerif/Model/Tensor.lean + Model/TensorView.lean of dims.h/tensor.h/storage.h/integral.h/algorithm.h/"
+    "stack.h; tied to the code by the correspondence run (harness/c16.cpp on the real headers vs the compiled Lean driver, "
+    "exact comparison)",
     "tools/props/c16.py generator + naive nested-loop oracle; harness/c16.cpp; g++/libstdc++/Eigen",
 ]
 ASSUMPTIONS = [
     "asserts are compiled out in the release build: ops violating an assert are never generated; the model returns none there",
     "Eigen Map objects are observed only through data()/size()/operator(): their internals are not modelled",
-    "memory safety beyond 'the aliased range lies inside the buffer' is observed by the ASan/UBSan flavour of the thorough tier only",
+    "memory safety beyond 'the aliased range lies inside the buffer' is observed by the ASan/UBSan flavour of the thorough tier; "
+    "the quick tier (no sanitizer) runs the harness with glibc's malloc perturbation and without its per-thread cache "
+    "(GLIBC_TUNABLES), so that a read of released memory shows up as wrong VALUES",
+    "the model's assignment `owning = view` is a pure function of the buffer before the assignment (no aliasing in the model): "
+    "that the implementation agrees also when the view points into the destination's own buffer is what the aslice/asub/"
+    "areshape ops with destination `self` test",
+    "mixed-type integral: conversions input -> output scalar are exact for the generated pairs (output at least as wide); int32/"
+    "int64 outputs are modelled as 32/64-bit two's-complement arithmetic (signed overflow is formally undefined in C++; the "
+    "generator keeps every sum inside the output type), binary64 outputs as exact integers below 2^53",
 ]
 RULE = ("exhaustive small shapes (quick: rank 1-3 dims 0..4, rank 4 dims 0..3, rank 5 sampled; thorough: rank 1-4 dims 0..4, rank 5 dims 0..3), "
         "every valid index tuple, every index prefix for tensor()/vector()/matrix() over 10 scalar types (cycled), every slice [b,e) "
         "(on owning/const/map/cmap storages and the range overload, cycled; rank 1 also segment()), every factorisation for reshape with "
         "one -1 at each position (storages cycled), random gathers (6 return scalar types cycled)/integrals/remove_if masks/vector stacks, "
-        "gap-free matrix stacks of 1..4 blocks, and random larger shapes incl. reshapes with an inferred axis; "
+        "gap-free matrix stacks of 1..4 blocks, and random larger shapes incl. reshapes with an inferred axis; for ranks 1-4 also: "
+        "every slice / every (sampled for rank 4) index prefix / sampled same-rank reshapes ASSIGNED to the aliased owner itself and "
+        "to fresh / constructed / bigger / same-size / mapped destinations (view taken through the owning tensor, its const form, a map, "
+        "a constant map, the range overload; element types i64/i32/i16), writes through tensor()/vector()/array()/matrix()/slice() "
+        "views, gathers into provided outputs (right shape via the map overload, other size, same element count with other dims, the "
+        "same output twice) and integrals for 13 (input, output) scalar pairs with values at the end of the input type's range; "
         "a case is non-trivial when size > 1 and some dimension is not 1; distinct by op text")
 FLAVOUR = {"quick": "plain", "thorough": "asan"}
 # the quick tier is not an ASan build: glibc's allocator is asked to overwrite every released block (perturb) and to
@@ -159,7 +183,7 @@ def gen(rng, tier):
             if rank <= 4:
                 more_ops(ops, rng, cyc, dims, tier, small=True)
     # random larger shapes (up to 1e5 elements)
-    for _ in range(40 if tier == "quick" else 400):
+    for _ in range(120 if tier == "quick" else 400):
         rank = rng.range(1, 5)
         while True:
             dims = [rng.range(1, 40) for _ in range(rank)]
@@ -557,4 +581,41 @@ def oracle(op, res):
 
 def classify(op, kind, detail):
     t = op.split()
+    if len(t) > 1 and t[1] in ("aslice", "asub", "areshape"):
+        # <op>/<self or other destination>: an aliasing failure is a different call site from a plain conversion failure
+        return f"{t[1]}/{'self' if t[-2] == 'self' else 'other'}"
+    if len(t) > 1 and t[1] == "integralx":
+        d = Toks(op); d.s(); d.s(); d.ints()
+        return f"integralx/{d.s()}->{d.s()}"
     return f"{t[1]}" if len(t) > 1 else None
+
+
+def shrink_candidates(op):
+    """smaller variants of a failing assignment / integral op (each line is self-contained)"""
+    t = Toks(op); t.s(); o = t.s()
+    if o not in ("aslice", "integralx"):
+        return
+    dims = t.ints()
+    if o == "aslice":
+        b = t.int(); e = t.int(); rest = " ".join(t.rest())
+        # drop trailing axes, then shorten the first axis / the slice
+        if len(dims) > 1:
+            yield f"tensor aslice {lst(dims[:-1])} {b} {e} {rest}"
+        for k, d in enumerate(dims):
+            if k > 0 and d > 1:
+                yield f"tensor aslice {lst(dims[:k] + [d // 2] + dims[k + 1:])} {b} {e} {rest}"
+        if dims[0] > e:
+            yield f"tensor aslice {lst([e] + dims[1:])} {b} {e} {rest}"
+        if e - b > 1:
+            yield f"tensor aslice {lst(dims)} {b} {b + (e - b) // 2} {rest}"
+        if b > 1:
+            yield f"tensor aslice {lst([dims[0] - (b - 1)] + dims[1:])} 1 {e - (b - 1)} {rest}"
+    else:
+        ity = t.s(); oty = t.s(); data = t.ints()
+        inner = prod(dims[1:])
+        if len(dims) > 1 and dims[0] >= 1:
+            # keep the first sub-tensor only, as a tensor of one rank less
+            yield f"tensor integralx {lst(dims[1:])} {ity} {oty} {lst(data[:inner])}"
+        if len(dims) == 1 and dims[0] > 2:
+            yield f"tensor integralx {lst([dims[0] - 1])} {ity} {oty} {lst(data[:-1])}"
+            yield f"tensor integralx {lst([dims[0] - 1])} {ity} {oty} {lst(data[1:])}"
